@@ -1,4 +1,6 @@
 import WireV.Tables
+import WireV.Rename
+import WireP.Lemmas.RenameProofs
 /-! # C15 — `copyAST` covers go/ast (table part)
 
 The tables `WireV.Generated.copyCases` (the cases of `copyAST` and the fields each case copies) and
@@ -27,5 +29,207 @@ example : ("TypeParams", "child") ∈ ((astNodes.find? (fun c => c.1 == "FuncTyp
 
 /-- the filters are not trivially empty: dropping one case / one field is detected -/
 example : (["Ident", "Foo"].filter (fun k => !(copyCases.map (·.1)).contains k)) = ["Foo"] := by decide
+
+/-! # C15 — the second pass of `rewritePkgRefs`: renaming of local symbols (`WireV.Rename`)
+
+Model: `WireV.renameOccs fuel fs occs` — the copied declaration as the list of its identifier
+occurrences `Occ` (name, object, `renamable`, `silent`), `fs` the names of the generated file's scope;
+the result is the list of the printed names of the non-silent occurrences `vis occs`.
+Definitions used by the statements (`vis`, `OccWF`, `occAt`, `Tok`, `lookupStack`, `bound`, `OuterOK`,
+`ToksInRange`, `declIdx`, `useIdx`) live in `WireP.Lemmas.RenameProofs`.
+
+`OccWF occs` (what go/types guarantees; decidable):
+* two occurrences of the same object are spelled alike and agree on `renamable`;
+* a silent occurrence is a renamable symbol with an object that also has a non-silent occurrence. -/
+section Rename
+open WireP.RenameProofs
+
+/-- `OccWF` in the formulation with an explicit object key -/
+theorem occWF_iff (occs : List Occ) :
+    OccWF occs ↔
+      ((∀ o1 ∈ occs, ∀ o2 ∈ occs, ∀ k, o1.obj = some k → o2.obj = some k →
+          o1.name = o2.name ∧ o1.renamable = o2.renamable) ∧
+       (∀ o ∈ occs, o.silent = true →
+          o.renamable = true ∧ o.obj ≠ none ∧ ∃ o' ∈ occs, o'.silent = false ∧ o'.obj = o.obj)) :=
+  RenameProofs.occWF_iff occs
+
+/-- T0 **the unbounded loop of the renaming terminates**: with fuel beyond the number of names that can
+    ever have to be avoided, a result exists -/
+theorem rename_total (fuel : Nat) (fs : List String) (occs : List Occ)
+    (hf : fs.length + 2 * occs.length + WireV.goKeywords.length + 2 ≤ fuel) :
+    ∃ ns, renameOccs fuel fs occs = some ns :=
+  RenameProofs.rename_total fuel fs occs hf
+
+/-- T1 one printed name per non-silent occurrence -/
+theorem rename_length (fuel : Nat) (fs : List String) (occs : List Occ) (ns : List String)
+    (h : renameOccs fuel fs occs = some ns) : ns.length = (vis occs).length :=
+  RenameProofs.rename_length h
+
+/-- T2 identifiers without object (the qualifiers and selectors the first pass wrote) keep their name —
+    for every occurrence list -/
+theorem rename_fixed_noobj (fuel : Nat) (fs : List String) (occs : List Occ) (ns : List String)
+    (h : renameOccs fuel fs occs = some ns) (i : Nat) (o : Occ) (hi : (vis occs)[i]? = some o)
+    (ho : o.obj = none) : ns[i]? = some o.name :=
+  RenameProofs.rename_fixed_noobj h hi ho
+
+/-- T2 identifiers without object and identifiers of objects that are not renamable (fields, methods,
+    package-level and universe objects) keep their name.  `OccWF` is needed for the second kind: see
+    the counterexample below. -/
+theorem rename_fixed (fuel : Nat) (fs : List String) (occs : List Occ) (ns : List String)
+    (hwf : OccWF occs) (h : renameOccs fuel fs occs = some ns) (i : Nat) (o : Occ)
+    (hi : (vis occs)[i]? = some o) (ho : o.obj = none ∨ o.renamable = false) :
+    ns[i]? = some o.name :=
+  RenameProofs.rename_fixed hwf h hi ho
+
+/-- T3 all occurrences of one object are printed alike — also those before the place where the new
+    name was chosen (a forward `goto`) -/
+theorem rename_consistent (fuel : Nat) (fs : List String) (occs : List Occ) (ns : List String)
+    (hwf : OccWF occs) (h : renameOccs fuel fs occs = some ns) (i j k : Nat) (oi oj : Occ)
+    (hi : (vis occs)[i]? = some oi) (hj : (vis occs)[j]? = some oj)
+    (hoi : oi.obj = some k) (hoj : oj.obj = some k) : ns[i]? = ns[j]? :=
+  RenameProofs.rename_consistent hwf h hi hj hoi hoj
+
+/-- T4 a changed name is fresh: not in the file scope, not an identifier of the node, not a keyword —
+    for every occurrence list -/
+theorem rename_fresh (fuel : Nat) (fs : List String) (occs : List Occ) (ns : List String)
+    (h : renameOccs fuel fs occs = some ns) (i : Nat) (o : Occ) (n : String)
+    (hi : (vis occs)[i]? = some o) (hn : ns[i]? = some n) (hne : n ≠ o.name) :
+    n ∉ fs ∧ n ∉ usedNames occs ∧ isKeyword n = false :=
+  RenameProofs.rename_fresh h hi hn hne
+
+/-- T5 **no local symbol of the copy carries a name of the generated file's scope** — so no package
+    qualifier written by the first pass can be captured -/
+theorem rename_clears_filescope (fuel : Nat) (fs : List String) (occs : List Occ) (ns : List String)
+    (hwf : OccWF occs) (h : renameOccs fuel fs occs = some ns) (i : Nat) (o : Occ) (n : String)
+    (hi : (vis occs)[i]? = some o) (hr : o.renamable = true) (hob : o.obj ≠ none)
+    (hn : ns[i]? = some n) : n ∉ fs :=
+  RenameProofs.rename_clears_filescope hwf h hi hr hob hn
+
+/-- T6 **nothing is merged**: two identifiers printed alike were spelled alike before, and if the
+    name is a new one they denote the same object -/
+theorem rename_injective (fuel : Nat) (fs : List String) (occs : List Occ) (ns : List String)
+    (hwf : OccWF occs) (h : renameOccs fuel fs occs = some ns) (i j : Nat) (oi oj : Occ) (n : String)
+    (hi : (vis occs)[i]? = some oi) (hj : (vis occs)[j]? = some oj)
+    (hni : ns[i]? = some n) (hnj : ns[j]? = some n) :
+    oi.name = oj.name ∧ (n = oi.name ∨ oi.obj = oj.obj) :=
+  RenameProofs.rename_injective hwf h hi hj hni hnj
+
+/-! ## T7 name resolution is preserved
+
+A program over the printed identifiers: `Tok.enter`/`Tok.leave` open and close a block, `Tok.decl i`
+declares identifier `i` (index into `vis occs`) in the innermost block, `Tok.use i` uses it.
+`lookupStack n env` is the first hit for the name `n` from the innermost scope outwards;
+`bound env0 chk nm ob loc toks` runs the program in the local scopes `loc` inside the outer scopes `env0`
+and demands `lookupStack (nm i) (loc ++ env0) = some (ob i)` for every use `i` with `chk i`.
+`OuterOK fs occs env0`: the outer names are names of `fs` or identifiers of the node, and the outer
+objects are not renamable symbols of the node.  (All side conditions are decidable.) -/
+
+/-- T7 (first form) a program that resolves correctly with the original names resolves correctly with
+    the new names, in the same outer scopes -/
+theorem rename_preserves_binding (fuel : Nat) (fs : List String) (occs : List Occ) (ns : List String)
+    (env0 : List Scope) (toks : List Tok)
+    (hwf : OccWF occs) (h : renameOccs fuel fs occs = some ns)
+    (hidx : ToksInRange occs toks) (henv0 : OuterOK fs occs env0)
+    (hb : bound env0 (fun _ => true) (fun i => (occAt occs i).name) (fun i => (occAt occs i).obj) []
+      toks = true) :
+    bound env0 (fun _ => true) (fun i => ns[i]?.getD "") (fun i => (occAt occs i).obj) [] toks
+      = true :=
+  RenameProofs.rename_preserves_binding env0 toks hwf h hidx henv0 hb
+
+/-- T7 (second form) **the second pass repairs captured qualifiers**: the identifiers without object are
+    the qualifiers the first pass wrote (names of `fs` that mean "no object" in the outer scopes);
+    before the second pass a local symbol may capture them, so only the identifiers *with* an object are
+    assumed to resolve correctly; if all declarations are renamable symbols, then afterwards **all**
+    identifiers resolve correctly -/
+theorem rename_no_capture (fuel : Nat) (fs : List String) (occs : List Occ) (ns : List String)
+    (env0 : List Scope) (toks : List Tok)
+    (hwf : OccWF occs) (h : renameOccs fuel fs occs = some ns)
+    (hidx : ToksInRange occs toks) (henv0 : OuterOK fs occs env0)
+    (hdecl : ∀ i ∈ declIdx toks, (occAt occs i).renamable = true ∧ (occAt occs i).obj ≠ none)
+    (hqual : ∀ i ∈ useIdx toks, (occAt occs i).obj = none →
+      (occAt occs i).name ∈ fs ∧ lookupStack (occAt occs i).name env0 = some none)
+    (hb : bound env0 (fun i => (occAt occs i).obj.isSome) (fun i => (occAt occs i).name)
+      (fun i => (occAt occs i).obj) [] toks = true) :
+    bound env0 (fun _ => true) (fun i => ns[i]?.getD "") (fun i => (occAt occs i).obj) [] toks
+      = true :=
+  RenameProofs.rename_no_capture env0 toks hwf h hidx henv0 hdecl hqual hb
+
+/-! ## non-vacuity -/
+
+/-- generated file scope -/
+def exFs : List String := ["strings", "fmt", "Println"]
+
+/-- `goto strings` (forward use of label object 0) · qualifier `strings` written by the first pass ·
+    local variable `strings2` (object 1) · the label declaration `strings:` (object 0) · the silent
+    pre-visit of a type-switch variable `fmt` (object 2) · its identifier · the package-level
+    function `Println` (object 3, not renamable) -/
+def exOccs : List Occ :=
+  [⟨"strings", some 0, true, false⟩, ⟨"strings", none, false, false⟩, ⟨"strings2", some 1, true, false⟩,
+   ⟨"strings", some 0, true, false⟩, ⟨"fmt", some 2, true, true⟩, ⟨"fmt", some 2, true, false⟩,
+   ⟨"Println", some 3, false, false⟩]
+
+/-- object 0 becomes `strings3` (not `strings2`, which occurs in the node) at both places, the qualifier
+    and the non-renamable `Println` stay, the silent occurrence fixes `fmt2` and prints nothing -/
+example : renameOccs 60 exFs exOccs =
+    some ["strings3", "strings", "strings2", "strings3", "fmt2", "Println"] := by decide
+example : OccWF exOccs := by decide
+example : usedNames exOccs = ["strings", "strings", "strings2", "strings", "fmt", "Println"] := by decide
+/-- the fuel bound of `rename_total` is met; too little fuel really fails -/
+example : exFs.length + 2 * exOccs.length + WireV.goKeywords.length + 2 ≤ 60 := by decide
+example : renameOccs 1 exFs exOccs = none := by decide
+/-- the hypotheses of T5 are met at index 3 (the label), the conclusion is not trivial -/
+example : (vis exOccs)[3]? = some ⟨"strings", some 0, true, false⟩ ∧
+    ((renameOccs 60 exFs exOccs).bind (·[3]?)) = some "strings3" ∧ "strings" ∈ exFs ∧
+    "strings3" ∉ exFs := by decide
+/-- … and T5 applies -/
+example : "strings3" ∉ exFs :=
+  rename_clears_filescope 60 exFs exOccs ["strings3", "strings", "strings2", "strings3", "fmt2", "Println"]
+    (by decide) (by decide) 3 ⟨"strings", some 0, true, false⟩ "strings3" (by decide) rfl (by decide)
+    (by decide)
+/-- T2 for non-renamable objects needs `OccWF`: two occurrences of one object that disagree on
+    `renamable` -/
+example : renameOccs 60 ["a"] [⟨"a", some 0, true, false⟩, ⟨"a", some 0, false, false⟩] =
+    some ["a2", "a2"] ∧ ¬ OccWF [⟨"a", some 0, true, false⟩, ⟨"a", some 0, false, false⟩] := by decide
+/-- without the `used` set a new name could merge two symbols; with it `strings2` is skipped (T6) -/
+example : renameOccs 60 ["x"] [⟨"x", some 0, true, false⟩, ⟨"x2", some 1, true, false⟩] =
+    some ["x3", "x2"] := by decide
+
+/-- the scopes around the node: the imports and a package-level function of the generated file -/
+def exEnv0 : List Scope := [[("strings", none), ("fmt", none), ("Println", some 3)]]
+
+/-- `{ strings: ; goto strings ; { strings2 := … ; strings.F ; switch fmt := … ; Println } }`
+    (the label is in scope in the whole function body, so its declaration comes first) -/
+def exToks : List Tok :=
+  [.enter, .decl 3, .use 0, .enter, .decl 2, .use 1, .decl 4, .use 4, .use 5, .leave, .leave]
+
+example : ToksInRange exOccs exToks := by decide
+example : OuterOK exFs exOccs exEnv0 := by decide
+example : ∀ i ∈ declIdx exToks, (occAt exOccs i).renamable = true ∧ (occAt exOccs i).obj ≠ none := by
+  decide
+example : ∀ i ∈ useIdx exToks, (occAt exOccs i).obj = none →
+    (occAt exOccs i).name ∈ exFs ∧ lookupStack (occAt exOccs i).name exEnv0 = some none := by decide
+/-- before the second pass the identifiers with an object resolve correctly … -/
+example : bound exEnv0 (fun i => (occAt exOccs i).obj.isSome) (fun i => (occAt exOccs i).name)
+    (fun i => (occAt exOccs i).obj) [] exToks = true := by decide
+/-- … but the qualifier `strings` is captured by the label … -/
+example : bound exEnv0 (fun _ => true) (fun i => (occAt exOccs i).name)
+    (fun i => (occAt exOccs i).obj) [] exToks = false := by decide
+/-- … and afterwards everything resolves correctly (the conclusion of `rename_no_capture`) -/
+example : bound exEnv0 (fun _ => true)
+    (fun i => ["strings3", "strings", "strings2", "strings3", "fmt2", "Println"][i]?.getD "")
+    (fun i => (occAt exOccs i).obj) [] exToks = true := by decide
+/-- the same, obtained from the theorem: all its hypotheses hold together -/
+example : bound exEnv0 (fun _ => true)
+    (fun i => ["strings3", "strings", "strings2", "strings3", "fmt2", "Println"][i]?.getD "")
+    (fun i => (occAt exOccs i).obj) [] exToks = true :=
+  rename_no_capture 60 exFs exOccs _ exEnv0 exToks (by decide) (by decide) (by decide) (by decide)
+    (by decide) (by decide) (by decide)
+/-- `bound` does detect a wrong resolution and unbalanced blocks -/
+example : bound exEnv0 (fun _ => true) (fun i => (occAt exOccs i).name) (fun i => (occAt exOccs i).obj)
+    [] [.enter, .decl 2, .use 3, .leave] = false := by decide
+example : bound exEnv0 (fun _ => true) (fun i => (occAt exOccs i).name) (fun i => (occAt exOccs i).obj)
+    [] [.leave] = false := by decide
+
+end Rename
 
 end WireP.C15
